@@ -946,8 +946,20 @@ def pydict_wire(d):
     return ";".join("%s=%s" % (pykey_wire(k), pyval_wire(v)) for k, v in d.items()) or "-"
 
 
+def _obs_val(v):
+    if isinstance(v, bool):
+        return "%d" % int(v)
+    if isinstance(v, int):
+        return "%d" % v
+    return "!" + repr(v)[:20]       # not an int: can never equal the model's observation
+
+
+def _obs_key(k):
+    return enc(k) if isinstance(k, str) and sendable(k) else "!" + repr(k)[:20]
+
+
 def dict_obs(d):
-    return ";".join("%s=%d" % (enc(k), int(v)) for k, v in d.items())
+    return ";".join("%s=%s" % (_obs_key(k), _obs_val(v)) for k, v in d.items())
 
 
 def run_history(ctx, rt, rng, n_ops, translate=True, mutate_alphabet=False):
@@ -988,6 +1000,11 @@ def run_history(ctx, rt, rng, n_ops, translate=True, mutate_alphabet=False):
             script.append(("get_semantic_robust_alphabet",))
         elif r < 0.36:
             d = gens.random_table(rng) if rng.random() < 0.7 else dict(rng.choice(gens.BAD_DICTS))
+            if rng.random() < 0.15:
+                ks = [k for k in d if isinstance(k, str) and k != "?"]
+                if ks:
+                    k0 = rng.choice(ks)
+                    d[gens.corrupt_key(rng, k0)] = d[k0]
             d = {k: v for k, v in d.items() if (isinstance(k, str) or k is None or isinstance(k, (int, tuple)))}
             held.append(("dict", d))
             lines.append("c.newdict\t%d\t%s" % (len(held) - 1, pydict_wire(d)))
@@ -1045,7 +1062,7 @@ def run_history(ctx, rt, rng, n_ops, translate=True, mutate_alphabet=False):
             lines.append("c.get\t%d" % (len(held) - 1))
             expected.append("ok")
             lines.append("c.readd\t%d" % (len(held) - 1))
-            expected.append("ok\t" + ";".join("%s=%d" % (enc(k), int(v)) for k, v in d.items()))
+            expected.append("ok\t" + dict_obs(d))
             a = S.get_semantic_robust_alphabet()
             lines.append("alphabet")
             expected.append(("SET", frozenset(a)))
@@ -1083,12 +1100,12 @@ def run_history(ctx, rt, rng, n_ops, translate=True, mutate_alphabet=False):
         lines.append("c.preset\t%s\t%d" % (enc(name), len(held) - 1))
         expected.append("ok")
         lines.append("c.readd\t%d" % (len(held) - 1))
-        expected.append("ok\t" + ";".join("%s=%d" % (enc(k), int(v)) for k, v in d.items()))
+        expected.append("ok\t" + dict_obs(d))
     for i, h in enumerate(held):
         if h[0] == "dict" and all(isinstance(k, str) and sendable(k) for k in h[1]) and \
                 all(isinstance(v, (int, bool)) and not isinstance(v, float) and (isinstance(v, bool) or v >= 0) for v in h[1].values()):
             lines.append("c.readd\t%d" % i)
-            expected.append("ok\t" + ";".join("%s=%d" % (enc(k), int(v)) for k, v in h[1].items()))
+            expected.append("ok\t" + dict_obs(h[1]))
     a = S.get_semantic_robust_alphabet()
     lines.append("alphabet")
     expected.append(("SET", frozenset(a)))
@@ -1133,6 +1150,8 @@ def compare_history(ctx, rt, stream, lines, expected, script):
 
 def fresh_results(table, probes, hashseed):
     """what a fresh interpreter set to `table` returns (O-fresh)"""
+    if table is None:
+        return None
     code = ("import sys, json\nsys.path.insert(0, %r)\nimport selfies as sf\n"
             "sf.set_semantic_constraints(json.loads(sys.argv[1]))\nout=[]\n"
             "for x in json.loads(sys.argv[2]):\n"
@@ -1148,6 +1167,15 @@ def fresh_results(table, probes, hashseed):
     if p.returncode != 0:
         return None
     return json.loads(p.stdout.decode().strip().split("\n")[-1])
+
+
+def _sane_table(t):
+    """the table as a fresh interpreter can be set to it (None if the table in force is not even settable,
+    which is itself only possible when library state was corrupted)"""
+    try:
+        return {k: int(v) for k, v in t.items() if isinstance(k, str) and isinstance(v, (int, bool))}
+    except Exception:
+        return None
 
 
 def check_C12(ctx, rt):
@@ -1205,7 +1233,7 @@ def check_C11(ctx, rt):
         bad = compare_history(ctx, rt, "translate-history", lines, expected, script)
         if h < nfresh:
             probes = [x for _k, x, _w in finals]
-            fr = fresh_results({k: int(v) for k, v in final_table.items()}, probes, hashseed=h * 13 + 1)
+            fr = fresh_results(_sane_table(final_table), probes, hashseed=h * 13 + 1)
             if fr is not None:
                 mine = ["ok\t" + dec(w.split("\t")[1]) if w.startswith("ok") else w for _k, _x, w in finals]
                 if fr != mine:
@@ -1214,7 +1242,7 @@ def check_C11(ctx, rt):
                                   differing=[(p, a, b) for p, a, b in zip(probes, mine, fr) if a != b][:4])
         if bad and not any(v["sig"].startswith("C11") for v in ctx.violations):
             # a disagreement with the pure-function model on a history: evaluate the property directly
-            fr = fresh_results({k: int(v) for k, v in final_table.items()}, [x for _k, x, _w in finals], hashseed=7)
+            fr = fresh_results(_sane_table(final_table), [x for _k, x, _w in finals], hashseed=7)
             mine = ["ok\t" + dec(w.split("\t")[1]) if w.startswith("ok") else w for _k, _x, w in finals]
             if fr is not None and fr != mine:
                 add_violation(ctx, "C11:differs-from-fresh", "after a history, decoder differs from a fresh interpreter on the same table",
